@@ -43,7 +43,7 @@ def run(replay=None):
         return ck.finish()
     rs = vlib.read_jsonl(obs)
     for r in rs:
-        if r["kind"] in ("classes", "sweep"):
+        if r["kind"] in ("classes", "sweep", "formats"):
             ck.coverage["evaluations"] += r["words"]
             ck.notes[r["kind"]] = {k: v for k, v in r.items() if k not in ("kind", "first")}
             if r["kind"] == "sweep":
